@@ -537,6 +537,73 @@ def readJsFunc (isMethod : Bool) (text : List Char) : Option JFunc :=
       | some (f, []) => if isMethod && JS.hasWithL f.body then none else some f
       | _ => none
 
+/-! ### reserved words (F141): a strict variant of the readers, used by the check
+
+The readers above know the keywords of the SUBSET; JavaScript reserves more words (some only in strict-mode code such as class
+bodies), and none of them may name a variable, a parameter or a function.  The strict readers reject a function in which a declaration uses one (they accept nothing the plain
+readers reject: `readJsFuncStrict_sub`). -/
+
+def jsReserved : List String :=
+  ["break", "case", "catch", "class", "const", "continue", "debugger", "default", "delete", "do", "else", "enum", "extends",
+   "false", "finally", "for", "function", "if", "import", "in", "instanceof", "new", "null", "return", "super", "switch", "this", "throw",
+   "true", "try", "typeof", "var", "void", "while", "with"]
+/- `export` is left out: V8 (`node --check`, the second opinion of the thorough tier) accepts it as a variable name in scripts -/
+/-- reserved in strict-mode code only (class bodies are strict; functions of a plain script are not) -/
+def jsStrictReserved : List String :=
+  ["let", "static", "yield", "implements", "interface", "package", "private", "protected", "public"]
+def isJsReserved (strict : Bool) (s : Name) : Bool :=
+  jsReserved.any (fun k => k.toList == s) || (strict && jsStrictReserved.any (fun k => k.toList == s))
+
+mutual
+/-- no `var` declaration of the statement (at any depth) declares a reserved word -/
+def JS.varsOk (strict : Bool) : JS → Bool
+  | .var n => !isJsReserved strict n
+  | .ifs _ t e => JS.varsOkL strict t && JS.varsOkL strict e
+  | .while _ b => JS.varsOkL strict b
+  | .for3 _ _ _ _ b => JS.varsOkL strict b
+  | .forOf _ _ b => JS.varsOkL strict b
+  | .with _ b => JS.varsOkL strict b
+  | _ => true
+def JS.varsOkL (strict : Bool) : List JS → Bool
+  | [] => true
+  | s :: ss => s.varsOk strict && JS.varsOkL strict ss
+end
+
+def JFunc.namesOk (isMethod : Bool) (f : JFunc) : Bool :=
+  (isMethod || !isJsReserved false f.name)      -- a class method may be named by a reserved word, a function may not
+    && f.params.all (fun p => match p with | .id n => !isJsReserved isMethod n | .spread n => !isJsReserved isMethod n | _ => true)
+    && JS.varsOkL isMethod f.body
+
+def readJsFuncStrict (isMethod : Bool) (text : List Char) : Option JFunc :=
+  (readJsFunc isMethod text).bind fun f => if f.namesOk isMethod then some f else none
+
+def JTop.namesOk : JTop → Bool
+  | .func f => f.namesOk false
+  | .cls n _ ms => !isJsReserved false n && ms.all (JFunc.namesOk true)
+
+def readJsStrict (text : List Char) : Option (List JTop) :=
+  (readJs text).bind fun ts => if ts.all JTop.namesOk then some ts else none
+
+theorem readJsFuncStrict_sub (m : Bool) (t : List Char) (f : JFunc) (h : readJsFuncStrict m t = some f) : readJsFunc m t = some f := by
+  unfold readJsFuncStrict at h
+  cases hr : readJsFunc m t with
+  | none => simp [hr] at h
+  | some g =>
+    simp only [hr, Option.bind_some] at h
+    split at h
+    · exact h
+    · cases h
+
+theorem readJsStrict_sub (t : List Char) (ts : List JTop) (h : readJsStrict t = some ts) : readJs t = some ts := by
+  unfold readJsStrict at h
+  cases hr : readJs t with
+  | none => simp [hr] at h
+  | some g =>
+    simp only [hr, Option.bind_some] at h
+    split at h
+    · exact h
+    · cases h
+
 def readJsExpr (text : List Char) : Option JE :=
   (lexJs text).bind fun ts =>
     match jExpr (24 * ts.length + 16) ts with
